@@ -546,16 +546,45 @@ def c13_mutate(t, rng):
         return ('str', t[1] + rng.choice('ab'))
     return c13_tree(rng, 3) if rng.random() < 0.7 else t
 
+def c13_shared(rng):
+    """a datum in which ONE cons cell occurs several times (shared substructure), and mutations of it that differ at a later
+    occurrence only; returns (trees a b c, expressions ea eb ec)"""
+    s0 = ('list', [c13_tree(rng, 3) for _ in range(rng.randint(1, 3))])
+    s1 = c13_mutate(s0, rng)
+    s2 = c13_mutate(s0, rng)
+    shape = rng.choice(['pair', 'triple', 'nested', 'cdr'])
+    def build(x, y, z):
+        if shape == 'pair': return ('list', [x, y])
+        if shape == 'triple': return ('list', [x, y, z])
+        if shape == 'nested': return ('list', [('list', [x, ('int', 1)]), ('list', [y, ('int', 1)])])
+        return ('cons', x, ('cons', y, z))
+    a, b, c = build(s0, s0, s0), build(s0, s1, s0), build(s0, s0, s2)
+    def expr(t, share):
+        if not share:
+            return c13_expr(t, rng, rng.choice([0.0, 0.5, 1.0]))
+        # every occurrence of s0 is the SAME cell: bound once
+        inner = c13_expr(s0, rng, 0.5)
+        def e(t):
+            if t == s0: return 'sh'
+            if t[0] == 'list': return '(list ' + ' '.join(e(x) for x in t[1]) + ')'
+            if t[0] == 'cons': return f'(cons {e(t[1])} {e(t[2])})'
+            return c13_expr(t, rng, 0.5)
+        return f'((lambda (sh) {e(t)}) {inner})'
+    return (a, b, c), (expr(a, True), expr(b, rng.random() < 0.5), expr(c, rng.random() < 0.5))
+
 def c13_correspond(run, rng, tier):
     n = 1500 if tier == 'quick' else 20000
     sessions, meta = [], []
     batch, bmeta = [], []
     eq_count = 0
     for i in range(n):
-        a = c13_tree(rng)
-        b = c13_mutate(a, rng)
-        c = c13_mutate(b, rng)
-        ea, eb, ec = (c13_expr(x, rng, rng.choice([0.0, 0.5, 1.0])) for x in (a, b, c))
+        if i % 4 == 3:
+            (a, b, c), (ea, eb, ec) = c13_shared(rng)
+        else:
+            a = c13_tree(rng)
+            b = c13_mutate(a, rng)
+            c = c13_mutate(b, rng)
+            ea, eb, ec = (c13_expr(x, rng, rng.choice([0.0, 0.5, 1.0])) for x in (a, b, c))
         text = f"(list (= {ea} {eb}) (= {eb} {ea}) (= {eb} {ec}) (= {ea} {ec}) (= {ea} {ea}) (= (print {ea}) (print {eb})))"
         batch.append(text)
         bmeta.append((a, b, c, text))
@@ -585,7 +614,7 @@ def c13_correspond(run, rng, tier):
                                  'replay_cmd': f"{lib.REPO}/target/debug/picilisp --expression '{text}'"})
     return {'evaluations': n, 'distinct_nontrivial': dist['equal_pairs'] + dist['unequal_pairs'],
             'rule': 'triples (a, b, c) of data where b and c are mutations (0-2 edits: change an atom, drop/add an element, proper->improper tail, replace a subtree) of a; '
-                    'every atom is built with or without reader metadata at random; =, symmetry, transitivity, reflexivity and print-equality are evaluated by the real interpreter, the model and a Python structural-equality oracle',
+                    'every atom is built with or without reader metadata at random; a quarter of the triples have SHARED substructure (one cons cell occurring several times in the first operand, the others differing at a later occurrence); =, symmetry, transitivity, reflexivity and print-equality are evaluated by the real interpreter, the model and a Python structural-equality oracle',
             'samples': [m[0][3] for m in meta[:3]], 'disagreements': diffs, 'oracle_failures': failures, 'distribution': dist}
 
 def generic_replay(run, content):
@@ -624,10 +653,12 @@ def c14_module_text(mod, defs, exports):
     forms = []
     for n in ('x', 'y'):
         forms.append(f"(define (quote probe-{mod}-{n}) (lambda () {n}) (list))")
+        # a macro is a function too: its expander body looks the name up from the macro's HOME module, whoever uses the macro
+        forms.append(f"(define (quote mprobe-{mod}-{n}) (macro () (list (quote quote) {n})) (list))")
     for n in defs:
         forms.append(f"(define (quote {n}) {VAL[(mod, n)]} (list))")
     if exports is not None:
-        forms.append("(export (quote (" + ' '.join(list(exports) + [f'probe-{mod}-x', f'probe-{mod}-y']) + ")))")
+        forms.append("(export (quote (" + ' '.join(list(exports) + [f'probe-{mod}-x', f'probe-{mod}-y', f'mprobe-{mod}-x', f'mprobe-{mod}-y']) + ")))")
     return ' '.join(forms)
 
 def c14_program(cfg):
@@ -643,6 +674,7 @@ def c14_program(cfg):
         queries.append((('sym', n, 'default'), n))
         for mod in ('ma', 'mb'):
             queries.append((('sym', n, mod), f'(probe-{mod}-{n})'))
+            queries.append((('msym', n, mod), f'(mprobe-{mod}-{n})'))
             queries.append((('from', n, mod), f"(from-module (quote {n}) (quote {mod}))"))
             queries.append((('with', n, mod), f"(with-current-module (quote {n}) (quote {mod}))"))
         queries.append((('whereis', n), f"(whereis (quote {n}))"))
@@ -657,6 +689,8 @@ def c14_visible(cfg, name, home):
     return vis
 
 def c14_expected(cfg, q):
+    if q[0] == 'msym':
+        q = ('sym',) + tuple(q[1:])
     if q[0] in ('sym', 'with'):
         _, name, home = q
         vis = c14_visible(cfg, name, home)
@@ -706,7 +740,7 @@ def c14_correspond(run, rng, tier):
                                  'expression': '\n'.join(forms) + '\n' + text})
     return {'evaluations': len(cfgs), 'distinct_nontrivial': len(cfgs),
             'rule': 'configurations of two loaded modules + default: definition subsets of {x, y} x export sets {none, {zz}, {x}, {x y}} per module x default defines x or not x both load orders '
-                    '(all 1024 in the thorough tier, a random 700 in the quick tier); each queried by symbol evaluation from default and from a closure of each module, from-module, with-current-module, whereis; '
+                    '(all 1024 in the thorough tier, a random 700 in the quick tier); each queried by symbol evaluation from default, from a closure of each module and from the expander body of a macro of each module used from default, from-module, with-current-module, whereis; '
                     'real interpreter vs model vs a Python visibility oracle',
             'samples': [str(c) for c in cfgs[:3]], 'disagreements': diffs, 'oracle_failures': failures, 'distribution': dist,
             'exhaustive': tier != 'quick'}
@@ -868,6 +902,18 @@ def c01_correspond(run, rng, tier, symbol_heavy=False, which='C01'):
                     lines += ['h collect', 'h snap', 'h inv']
             lines += ['h collect', 'h snap', 'h inv']
             sessions.append(lines)
+        # a live set that grows slowly (one kept cons per step, a little garbage): the natural collections free only a few
+        # cells; the heap is looked at after EVERY operation, so that its size is seen right after every growth
+        for garbage_every in (3, 7, 12, 30):
+            lines = ['new empty', 'sched natural', 'poison 1', 'h num 1 5']
+            for i in range(420 if tier == 'quick' else 3000):
+                lines.append('h cons 0 1 0' if i else 'h cons 0 1 _')
+                if i % garbage_every == 0:
+                    lines.append(f'h num 2 {i}')
+                if i > 200:
+                    lines.append('h snap')
+            lines += ['h collect', 'h snap', 'h inv']
+            sessions.append(lines)
     real, model = both(sessions)
     diffs = compare(sessions, real, model)
     failures = []
@@ -978,7 +1024,11 @@ class TrapAst:
     def context(self, depth):
         r = self.r
         text, out = self.gen(depth - 1)
-        c = r.choice(['operand', 'operand2', 'closure', 'thunk', 'when', 'block', 'cond', 'operator', 'second'])
+        c = r.choice(['operand', 'operand2', 'closure', 'thunk', 'when', 'block', 'cond', 'operator', 'second', 'load'])
+        if c == 'load':
+            # the signal crosses a load: it reaches the trap outside with its payload intact, an abort stays an abort
+            esc = text.replace('\\', '\\\\').replace('"', '\\"')
+            return f'(load-all "1 {esc} 2" "lm")', (('ok', 'ok') if out[0] == 'ok' else out)
         if c == 'operand': return f'(car (list {text} 2))', out
         if c == 'operand2':
             # two signalling operands: the left one wins
@@ -1102,6 +1152,8 @@ LOOPS = {
     # loops that never apply a Lisp function: only the evaluator's own back-edges (the inlined eval, if)
     'eval-only': "(define 'w '(eval w) \"\")\n(eval w)",
     'if-eval': "(define 'u '(if t (eval u) nil) \"\")\n(eval u)",
+    # several top-level forms inside a load: a command may arrive between two forms (while the next one is being read)
+    'load-loop': "(load-all \"(define 'la 1 (list)) (define 'lb (add la 1) (list)) (defun spin9 (n) \\\"\\\" (spin9 (add n 1))) (spin9 0)\" \"lm\")",
     'receive': "(list 'got (receive))",
     'terminating': "(foldl add 0 (range 50))",
     'output': "(infinite-loop 0)",
@@ -1112,7 +1164,9 @@ def c19_correspond(run, rng, tier):
     steps = [0, 1, 2, 3, 5, 10, 33, 100, 1000] + [rng.randint(0, 5000) for _ in range(10 if tier == 'quick' else 200)]
     for name, prog in LOOPS.items():
         for cmd in ('INTERRUPT', 'ABORT', 'STEP-IN'):
-            for k in steps:
+            # every instant of the first loop heads for the programs with several top-level forms (the boundaries between forms)
+            dense = list(range(0, 160 if tier == 'quick' else 600)) if name in ('tail', 'load-loop') and cmd != 'STEP-IN' else []
+            for k in sorted(set(steps + dense)) if dense else steps:
                 if cmd == 'STEP-IN' and name not in ('terminating', 'receive'):
                     continue        # an ignored command would let the loop run forever
                 if name == 'output' and k > 300:
@@ -1144,7 +1198,7 @@ def c19_correspond(run, rng, tier):
         problem = None
         if not after or after[0][:2] != ('ok', '(3 function-type default)'):
             problem = f'after the command the interpreter is not usable / lost its definitions: {r[-1][:200] if r else r}'
-        elif stopping and name in ('tail', 'output', 'eval-only', 'if-eval'):
+        elif stopping and name in ('tail', 'output', 'eval-only', 'if-eval', 'load-loop'):
             want = 'abort' if stopping[0] == 'ABORT' else 'sig'
             if last is None or last[0] != want or (want == 'sig' and 'interrupted' not in last[1]):
                 problem = f'{stopping[0]} did not stop the evaluation as prescribed: {last}'
@@ -1574,7 +1628,9 @@ spec('C11', correspond=c11_correspond, replay=c11_replay, modules=['C11', 'C11b'
 
 def c09_forms(rng, n):
     forms = []
-    inline = ["((macro (a b) (list 'add a b)) 1 2)", "((macro (& xs) (cons 'list xs)) 1 2 3)", "((lambda (x) (when x 1)) 1)", "((lambda (x) (when x (or nil x))) 7)",
+    inline = ["(((macro () 'when)) t 5)", "(((macro () 'when)) nil (signal 'operand-was-evaluated))", "(((macro (p) (if p 'and 'or)) t) nil 7)", "(((macro (p) (if p 'and 'or)) nil) nil 7)",
+              "(list (((macro () 'not)) nil) 1)", "((lambda (x) (((macro () 'when)) x 'yes)) 1)", "((macro (x) (list 'quote x)) (try 1))",
+              "((macro (a b) (list 'add a b)) 1 2)", "((macro (& xs) (cons 'list xs)) 1 2 3)", "((lambda (x) (when x 1)) 1)", "((lambda (x) (when x (or nil x))) 7)",
               "'(when t 1)", "(list '(and 1 2) (and 1 2))", "(quote (let (x 1) x))", "((if t (lambda (q) (not q)) car) nil)", "(let (f (lambda (v) (case ((= v 1) 'one) ((= v 2) 'two) (t 'many)))) (list (f 1) (f 2) (f 3)))",
               "((macro (x) (list 'quote x)) (when t 1))", "(block (output \"a\") (when t (block (output \"b\") 2)))", "(try (throw 'kind 'k1 'source 's) (catch k1 (lambda (e) (and e 1))))",
               "(apply list '(1 2 3))", "(let (a 1 b 2) (and (< a b) (or nil (not nil))))", "(map (lambda (x) (when (> x 1) (block x))) '(1 2 3))", "(list when)", "((lambda (when) when) 5)",
@@ -1674,7 +1730,11 @@ def c06_native_calls(rng, tier):
                 calls.append(f"((lambda (x) {body2}) {cshape})")
     # hand-made functions and environments, called
     for f in ["(make-function '(x) 'x 5 'default 'lambda-type)", "(make-function '(x) '(y) '((y . 1) z (3)) 'default 'lambda-type)", "(make-function '(&) 1 () 'default 'lambda-type)",
-              "(make-function '(a & b) '(list a b) () 'default 'macro-type)", "(unrest (lambda (a & b) b))", "(make-function '(q) '(q) (cons 1 2) 'zz 'lambda-type)"]:
+              "(make-function '(a & b) '(list a b) () 'default 'macro-type)", "(unrest (lambda (a & b) b))", "(make-function '(q) '(q) (cons 1 2) 'zz 'lambda-type)",
+              # home modules that were never defined, bodies that look up globals / use macros / name nothing
+              "(make-function '() '(add 1 2) '() 'nowhere 'lambda-type)", "(make-function '() 'car '() 'nowhere 'lambda-type)", "(make-function '() '(when t 1) '() 'nowhere 'lambda-type)",
+              "(make-function '() 'undefined-global '() 'nowhere 'lambda-type)", "(make-function '(& r) '(list r foldl) '() 'nowhere 'macro-type)", "(make-function '() '(eval (quote car)) '() (gensym) 'lambda-type)",
+              "(make-function '() '(add 1 2) '() 'native 'lambda-type)", "(make-function '() '(-length (list 1) 0) '() 'prelude 'lambda-type)", "(make-function '() '(-length (list 1) 0) '() 'default 'lambda-type)"]:
         for args in ['', '1', '1 2', "'(1)"]:
             calls.append(f'(({f}) {args})' if False else f'({f} {args})')
     calls += ["(call-native-function eval (list 'x) 5)", "(call-native-function eval (list 'x) '((x . 1)))", "(call-native-function car (cons 1 2) ())", "(call-native-function print '(1) '(2))",
@@ -1957,8 +2017,13 @@ def c20_programs(rng, n):
              "((lambda (x y) (add x y)) 1)", "(if 1 2)", "undefined-sym", "(car 5)",
              # repaired: duplicate parameter names (the later one shadows), macros in the argument of eval
              "((lambda (x x) x) 1 2)", "((lambda (a & a) a) 1 2)", "(eval '(when t 1))", "(eval '(let (a 1) (add a 1)))", "(eval (list 'or nil 5))", "((lambda (x) (eval '(when x 'y))) 1)",
+             # let is not let*: every operand is evaluated in the outer environment
+             "(let (x 1) (let (x 2 y x) (list x y)))", "((lambda (x) ((lambda (x y) (list x y)) 2 x)) 1)", "(let (length 7 n (length '(a b c))) (list length n))",
+             "((lambda (a) ((lambda (a b c) (list a b c)) (add a 1) (add a 2) (add a 3))) 10)",
              # known finding F32: a local variable named eval
              "((lambda (eval) (eval 3)) car)",
+             # known finding F33: a closure whose body is the literal empty list
+             "((lambda () ()))", "((lambda (x) ()) 1)",
              # operator expressions with an observable side effect: evaluated exactly once
              "((block (output \"pick\") add) 1 2)", "((if (block (output \"c\") t) car cdr) '(1 2))", "(((lambda (n) (block (output \"mk\") (lambda (x) (add x n)))) 2) 3)",
              "((eval (trap (signal 'k) (block (output (print *trapped-signal*)) (lambda (& r) r)))) 1 2)", "(list ((block (output \"a\") car) '(1)) ((block (output \"b\") cdr) '(1)))",
@@ -2010,6 +2075,9 @@ def c20_correspond(run, rng, tier):
                 if p == "((lambda (eval) (eval 3)) car)":
                     f['finding'] = 'F32-debugger-local-variable-named-eval'
                     findings_seen.add('F32-debugger-local-variable-named-eval')
+                elif p in ("((lambda () ()))", "((lambda (x) ()) 1)"):
+                    f['finding'] = 'F33-debugger-closure-with-empty-body'
+                    findings_seen.add('F33-debugger-closure-with-empty-body')
                 elif direct and direct[0] == 'sig' and any(k in direct[1] for k in ILL_FORMED_KINDS) or (outs.get(mode) and outs[mode][0] == 'sig' and 'stackoverflow' in (outs[mode][1] or '')):
                     f['finding'] = 'F22-debugger-on-ill-formed-programs'
                     findings_seen.add('F22-debugger-on-ill-formed-programs')
@@ -2021,7 +2089,7 @@ def c20_correspond(run, rng, tier):
                     'and every run, including the stream of debugger messages, compared with the model evaluator interpreting the real debugger.lisp',
             'samples': progs[:2] + progs[30:32], 'disagreements': diffs, 'oracle_failures': failures, 'distribution': dist, 'findings_seen': findings_seen}
 
-spec('C20', correspond=c20_correspond, replay=generic_replay, modules=['C20'],
+spec('C20', correspond=c20_correspond, replay=generic_replay, modules=['C20', 'C20b'],
      search=lambda run, rng, d: c20_correspond(run, random.Random(rng.random()), 'quick')['oracle_failures'],
      trusted=['the evaluator model is tied to eval/mod.rs by differential execution', 'debugger.lisp is interpreted by the model evaluator (not re-modelled)', 'the correspondence check (hook H3 answers `receive`)'],
      assumptions=['partial: the agreement of debug-eval with eval is established by differential execution (real and model), the theorems cover the natives the stepping evaluator is built from and the detached case',
@@ -2131,6 +2199,14 @@ def c16_cases(rng, tier):
                         value = f'v{i}' if vals[i] else '()'
                         decided = True
             m('(case ' + ' '.join(text) + ')', value, trace)
+    # try with signals of every shape: a catcher for another kind never interferes, whatever the signal looks like
+    for sig, shown in [("(list 1 2 3)", '(1 2 3)'), ("(quote (a b kind))", '(a b kind)'), ("(quote (kind))", '(kind)'), ("(list \"file not found\" 42)", '("file not found" 42)'), ("5", '5'),
+                       ("\"text\"", '"text"'), ("(cons 1 2)", '(cons 1 2)'), ("(quote (kind other))", '(kind other)'), ("(quote (1 kind boom))", '(1 kind boom)')]:
+        m(f"(try (signal {sig}) (catch boom (lambda (e) (tag 1 'wrong))) (catch-all (lambda (e) (tag 2 e))))", shown, [2])
+        # (a try WITHOUT a matching catcher yields nil — `case` with no true clause — instead of passing the signal on: the
+        #  documentation of try is silent about that case, so it is not judged here; observation recorded in DESIGN §11.5)
+    for args, value in [("'k '(1 2 3)", '()'), ("'b '(a 1 b)", '()'), ("'a 5", '()'), ("'a '(a 1)", '1'), ("'b '(a 1 b 2)", '2'), ("'c '(a 1 b 2)", '()'), ("'a \"str\"", '()'), ("'a (cons 'a 1)", '()'), ("'kind '(kind)", '()')]:
+        m(f"(get-property-safe {args})", value, [])
     # try: the first matching catcher decides, also when it returns nil
     m("(try (throw 'kind 'boom) (catch boom (lambda (e) (tag 1 nil))) (catch-all (lambda (e) (tag 2 'fell-through))))", '()', [1])
     m("(try (throw 'kind 'boom) (catch other (lambda (e) (tag 1 nil))) (catch boom (lambda (e) (tag 2 nil))) (catch boom (lambda (e) (tag 3 'second))))", '()', [2])
@@ -2182,7 +2258,7 @@ def c16_correspond(run, rng, tier):
                     'value, signal kind and output trace compared between the real interpreter, the model and the documented meaning (Python); plus the closures bound by the current prelude.lisp (real vs model) and the generated constants the theorems are about',
             'samples': [progs[0], progs[20], progs[-6]], 'disagreements': diffs, 'oracle_failures': failures, 'distribution': dist, 'findings_seen': findings_seen}
 
-spec('C16', correspond=c16_correspond, replay=generic_replay, modules=['C16', 'C16b', 'C16c'],
+spec('C16', correspond=c16_correspond, replay=generic_replay, modules=['C16', 'C16b', 'C16c', 'C16d'],
      search=lambda run, rng, d: c16_correspond(run, random.Random(rng.random()), 'quick')['oracle_failures'],
      trusted=['the evaluator model is tied to eval/mod.rs by differential execution', 'Generated/Prelude.lean is regenerated from prelude.lisp on every run and compared with what the model binds (preludecheck)', 'the correspondence check'],
      assumptions=['foldr, init and concat are not tail recursive: lists longer than about half the depth limit raise stackoverflow (stated, not a deviation from the documentation)',
